@@ -302,3 +302,81 @@ def path_points(ctx, crate, clause="path-points"):
     ctx.report(clause, fn + ":points-on-the-segment-from-to", not bad and n >= 48,
                "12 (from, to) pairs x 4 sample points: centre + off(from) + k (off(to) - off(from)) / n_segments, x wrapped" if not bad else
                "from %s to %s: %s" % bad[0], at=b.span, kind="N")
+
+
+def cardinal_set(ctx, crate, clause="vertex-set"):
+    """N: `CardinalSet`, the argument of `vertices_map`: bit i of its byte stands for the direction of
+    index i — `get_from_index` reads bit `index`, `set` sets / clears bit `key.index()` and nothing else
+    (64 + 128 finite cases read off the extracted terms), `all()` is 0b1111, `new()` is 0, and
+    `Cardinal::from_index` inverts `Cardinal::index`."""
+    from sym import State, C
+    from rules.common import feval
+    CS = "compass_point::CardinalSet"
+    if CS not in crate.adts: return
+    S = ('deref', param("self")); BYTE = ('fld', S, crate.field_index(CS, "byte"))
+    # get_from_index
+    fn = CS + "::get_from_index"
+    b = ctx.anchor(crate, fn, clause)
+    if b is not None:
+        e = Engine(crate); r = e.run(fn); ctx.functions |= e.visited_fns
+        bad = [(B, i) for B in range(16) for i in range(4) if not r.returns or feval(r.ret, {BYTE: B, param("index"): i}, e) != bool((B >> i) & 1)]
+        ctx.report(clause, fn + ":reads-bit-index", not bad, "64 (byte, index) cases" if not bad else "byte %s, index %s: wrong answer" % bad[0], at=b.span, kind="N")
+    # set
+    fn = CS + "::set"; IDX = "compass_point::Cardinal::index"
+    b = ctx.anchor(crate, fn, clause)
+    if b is not None:
+        e = Engine(crate, opaque={IDX}); r = e.run(fn); ctx.functions |= e.visited_fns
+        ix = [ev.ret for ev in e.events.values() if ev.callee == IDX]
+        fin = r.state.heap.get(BYTE) if r.returns else None
+        bad = []
+        if fin is None or len(ix) != 1: bad = [("shape",)]
+        else:
+            for B in range(16):
+                for i in range(4):
+                    for v in (False, True):
+                        got = feval(fin, {BYTE: B, ix[0]: i, param("value"): v}, e)
+                        want = (B | (1 << i)) if v else (B & ~(1 << i) & 0xff)
+                        if got != want: bad.append((B, i, v, got, want))
+        ctx.report(clause, fn + ":sets-or-clears-bit-index", not bad, "128 (byte, index, value) cases" if not bad else "%s" % (bad[0],), at=b.span, kind="N")
+    # constructors
+    for name, want in (("all", 15), ("new", 0)):
+        fn = CS + "::" + name
+        b = crate.body(fn)
+        if b is None: continue
+        e = Engine(crate); r = e.run(fn); ctx.functions |= e.visited_fns
+        ok = r.returns and r.ret[0] == 'agg' and r.ret[3] and r.ret[3][0] == C('u8', want)
+        ctx.report(clause, fn + ":byte==%d" % want, ok, "CardinalSet::%s() has byte %s" % (name, show(r.ret[3][0]) if r.returns and r.ret[0] == 'agg' else "?"), at=b.span, kind="N")
+    # from_index inverts index
+    names = crate.variant_names("compass_point::Cardinal")
+    fi = "compass_point::Cardinal::from_index"; bi = crate.body(IDX); bf = crate.body(fi)
+    if bi is not None and bf is not None:
+        bad = []
+        for vi, nm in enumerate(names):
+            v = ('agg', 'adt:compass_point::Cardinal', vi, ())
+            e = Engine(crate); st = State(); st.heap[('tmp', 'dir')] = v
+            arg = ('ref_t', ('tmp', 'dir')) if bi.local_ty(1)["k"] == "ref" else v
+            r = e.run_body(bi, [arg], st, fk=((IDX, -1),), stack=(IDX,))
+            k = r.ret if r.returns else None
+            e2 = Engine(crate); r2 = e2.run(fi, [k]) if k is not None and k[0] == 'c' else None
+            back = r2.ret if r2 is not None and r2.returns else None
+            if back != v: bad.append((nm, show(k) if k else None, show(back)[:40] if back else None))
+        ctx.report(clause, fi + ":inverts-index", not bad, "from_index(index(d)) = d for the 4 directions" if not bad else "direction %s -> index %s -> %s" % bad[0], at=bf.span, kind="N")
+
+
+def grid_ranges(ctx, crate, clause="grid-points"):
+    """N: `grid(hash, n)` walks offsets i/n, j/n for i, j = 0..=n: its two loops run over 0..n+1 (the
+    abscissae then stay in [0, 1], the offsets `sph_coo` accepts); one more round gives points outside
+    the cell, one less leaves the N-E and N-W sides out.  (The map from (i/n, j/n) to the point is the
+    offset-map sibling rule.)"""
+    fn = L + "grid"
+    b = ctx.anchor(crate, fn, clause)
+    if b is None: return
+    e = Engine(crate, opaque={L + "center_of_projected_cell", "unproj"}); e.run(fn); ctx.functions |= e.visited_fns
+    rng = [ev.args[0][3] for ev in e.events.values() if len(ev.site) == 2 and ev.callee and "into_iter" in ev.callee and ev.args and ev.args[0][0] == 'agg' and ev.args[0][1] == 'adt:std::ops::Range']
+    if len(rng) != 2:
+        ctx.not_decided("grid: the ranges of its two loops (not written as two `a..b` loops)"); return
+    n = param("n_segments_by_side")
+    def is_n_plus_1(t):
+        return t[0] == 'op' and t[1] == 'add' and t[4][0] == 'c' and t[4][2] == 1 and t[3][0] == 'cast' and t[3][3] == n
+    ok = all(r_[0][0] == 'c' and r_[0][2] == 0 and is_n_plus_1(r_[1]) for r_ in rng)
+    ctx.report(clause, fn + ":loops-0..=n", ok, "both loops run over 0..(n_segments_by_side + 1)" if ok else "loop ranges %s" % [(show(a)[:30], show(c_)[:40]) for a, c_ in rng], at=b.span, kind="N")
